@@ -310,6 +310,16 @@ class InductionGroup:
         # then speaks of term(T) itself, so that the induction generalises over both sides
         goal0 = ob.goal
         pcs = list(ob.pc)
+        # A => B: A joins the hypotheses (it keeps talking about the whole sequence), B is what is inducted on
+        for _ in range(3):
+            if z3.is_implies(goal0):
+                pcs.append(goal0.arg(0))
+                goal0 = goal0.arg(1)
+            elif z3.is_or(goal0) and goal0.num_args() == 2 and z3.is_not(goal0.arg(0)):
+                pcs.append(goal0.arg(0).arg(0))
+                goal0 = goal0.arg(1)
+            else:
+                break
         for p in list(pcs):
             if z3.is_eq(p) and mentions(p, const):
                 a, b = p.arg(0), p.arg(1)
